@@ -9,8 +9,8 @@ scans and the pagination loops of `LookupKeysByPrefix`, `LookupKeysByPrefixCurso
 `AccountsOnlineTop`, `OnlineAccountsAll`.
 
 Both back ends (sqlitedriver = SQL over these tables, generickv+pebbledbdriver = ordered byte keys) are compared with
-THIS spec by the C47 check; where the two disagree on the unchanged tree the spec follows the SQL statements
-(the production engine) — see checks/C47.py for the list.  Core Lean only (no Mathlib): the driver links it.
+THIS spec by the C47 check; where one engine deviates from the interface contract the deviation is modelled separately
+(Model.TrackerStoreKV, checks/C47.py QUIRKS), never folded into the spec.  Core Lean only (no Mathlib): the driver links it.
 -/
 namespace Spec.TrackerStore
 
@@ -216,9 +216,10 @@ def ctypeOf (r : ResRow) : Nat := if r.kind = "p" then 1 else 0
 def resOf (a : Addr) (l : Resources) : Resources := l.filter (fun e => decide (e.1.1 = a))
 
 /-- LookupLimitedResources: the holder's record merged with the creator's record of the same creatable -/
-def mergeRes (ctype : Nat) (act crt : ResRow) : ResRow :=
-  if ctype = 0 then { kind := act.kind, x := act.x, y := crt.y, flags := act.flags, upd := crt.upd }
-  else { kind := act.kind, x := act.x, y := crt.y, flags := act.flags, upd := crt.upd }
+def mergeRes (act crt : ResRow) : ResRow :=
+  -- asset: Amount/Frozen of the holder over the creator's params; app: the holder's local-state schema and key/values
+  -- over the creator's params; ResourceFlags of the holder; everything else (incl. UpdateRound) is the creator's
+  { kind := act.kind, x := act.x, y := crt.y, flags := act.flags, upd := crt.upd }
 
 /-! ## the store -/
 
@@ -288,7 +289,7 @@ def limitedResources (a : Addr) (minIdx max ctype : Nat) (s : Store) : Nat × Li
     | some (_, creator) =>
       if has creator s.accts then
         match find (creator, e.1.2) s.res with
-        | some crt => (e.1.2, mergeRes ctype e.2 crt, creator)
+        | some crt => (e.1.2, mergeRes e.2 crt, creator)
         | none => (e.1.2, e.2, 0)
       else (e.1.2, e.2, 0)
     | none => (e.1.2, e.2, 0))
